@@ -1686,7 +1686,7 @@ func (u *universe) lengthsPass(m *mp.Model, d *doc, valA [][]pr.CssProperty, exs
 		}
 		rfs := float64(rootFS.Value)
 		if n.parent < 0 {
-			rfs = float64(pr.InitialValues.GetFontSize().Value) // the code's choice for the root element (KF04-6)
+			rfs = float64(fs.Value) // on the root element rem is its own computed font size (none of these computers is font-size)
 		}
 		for p, dv := range n.decls {
 			fn := u.fnNames[p]
